@@ -187,7 +187,65 @@ def _one(res, case, n, W, ratio, slope, ms, ans):
             res.violate("hole:evidence", f"{label}: likelihood = exp({level}) on the support; evidence at the first annealing iteration is {z!r}, outside [{lo + level!r}, {hi + level!r}] (log supported fractions {logf})", cc)
 
 
-KINDS = {"masks": run_masks}
+def run_large11(case):
+    """Scale: hundreds of particles and a warm-up of dozens of iterations (the samples-by-iterations table exceeds 2^21 entries) on a likelihood that
+    is constant on half of the prior volume.  Nothing is scripted; the supported fraction of every prior batch is observed at the likelihood.
+    Every beta=0 record, the evidence after the first annealing step and the evidence re-estimated from the stored history must lie between the
+    smallest and the largest log supported fraction seen."""
+    res = Res()
+    n, ratio, level = case["n"], case["ratio"], case["level"]
+    cfg = dict(d=1, n_particles=n, ess_ratio=ratio, n_total=10 ** 9, clustering=False, eval="scalar", prior="affine", target="flat", max_iters=10 ** 6)
+    hole = targets.Hole(F, slope=0.0, level=level)
+    p = Probe(cfg, base=case["base"])
+    cnt = {}
+
+    def user_ll(x):
+        v = hole(x)
+        c = cnt.setdefault(p.iters, [0, 0])
+        c[0] += 1
+        c[1] += int(np.isfinite(v))
+        return v
+
+    p.ll.f = user_ll
+    rec = {"logz0": [], "after": []}
+
+    def mon(ev):
+        st = ev.probe.state
+        if ev.step == "commit":
+            if float(st._current["beta"]) == 0.0:
+                rec["logz0"].append((ev.iter, float(st._history["logz"][-1])))
+            else:
+                rec["after"].append((ev.iter, float(st._current["beta"]), float(st._history["logz"][-1])))
+
+    p.monitors.append(mon)
+    W = int(math.ceil(ratio))
+    p.steps(W + 2)
+    res.evals += 1
+    res.states += p.events
+    res.trans += p.events
+    cc = dict(case)
+    if p.exc is not None:
+        res.violate(f"large:raises:{type(p.exc).__name__}", f"n={n}, ess_ratio={ratio}: sample() raised {p.exc!r}", cc)
+        return res
+    logf = [math.log(c[1] / c[0]) for it, c in sorted(cnt.items()) if c[1] > 0 and it <= W + 1]
+    lo, hi = min(logf), max(logf)
+    res.outcome(("large", n, ratio, level, len(rec["logz0"])), nontrivial=lo < 0)
+    for it, z in rec["logz0"]:
+        if not (lo - 1e-9 <= z <= hi + 1e-9):
+            res.violate("large:warmup-record", f"n={n}, ess_ratio={ratio}: beta=0 iteration {it} recorded logZ={z!r}; the log supported fractions of the prior batches lie in [{lo!r}, {hi!r}]", cc)
+            return res
+    for it, b, z in rec["after"]:
+        if not (lo + b * level - 1e-6 <= z <= hi + b * level + 1e-6):
+            res.violate("large:evidence", f"n={n}, ess_ratio={ratio}, likelihood = exp({level}) on the support: iteration {it} (beta={b!r}) recorded logZ={z!r}, outside [{lo + b * level!r}, {hi + b * level!r}] "
+                        f"(log supported fractions of the {len(logf)} prior batches between {lo!r} and {hi!r})", cc)
+            return res
+    _, lz1 = p.state.compute_logw_and_logz(1.0)
+    if not (lo + level - 1e-6 <= float(lz1) <= hi + level + 1e-6):
+        res.violate("large:evidence-from-history", f"n={n}, ess_ratio={ratio}: evidence at beta=1 re-estimated from the stored history is {float(lz1)!r}, outside [{lo + level!r}, {hi + level!r}]", cc)
+    return res
+
+
+KINDS = {"large": run_large11, "masks": run_masks}
 
 
 def plan(ctx):
@@ -226,4 +284,5 @@ def plan(ctx):
     ctx.bounds["failure_points"] = "every (iteration t <= W+1, likelihood call j <= 2n) x every mask sequence; (n,W) in {(2,1),(2,2),(3,1)} quick, + (3,2),(4,1),(2,3) thorough"
     ctx.bounds.update({"n_particles": [2, 3, 4], "warmup_iterations": [1, 2, 3, 4], "mask_sequences_max": 65536 if th else 4096, "supported_fraction": F})
     ctx.explore("mask-sequences", cases)
+    ctx.explore("large-scopes", [{"kind": "large", "n": n_, "ratio": r_, "level": lv_, "base": ctx.seed} for n_, r_, lv_ in ((512, 66.0, 0.0), (2048, 34.0, -1.5), (64, 8.0, 0.0)) + (((1024, 50.0, 2.0),) if th else ())])
     ctx.res.sample({"n": 3, "W": 2, "masks": ["010", "100"], "expected_logZ_interval": [math.log(2 / 3), math.log(2 / 3)]})
